@@ -73,7 +73,10 @@ class Obs(object):
                 for k, v in vars.items():
                     self.p.set_variable(k, v)
                 value_of(self.p, f)
-        for mode, kind, inp, f1, f2, vars in q:
+        for qi, (mode, kind, inp, f1, f2, vars) in enumerate(q):
+            if qi % 4 == 3:       # computed arguments: whole numbers held as floats (exactly, below 2^53)
+                vars = {k: (float(v) if isinstance(v, int) and not isinstance(v, bool) and abs(v) < 2 ** 53 else v) for k, v in vars.items()}
+                inp = dict(inp, floats=1)
             for k, v in vars.items():
                 self.p.set_variable(k, v)
             key = (kind, inp.get('form'), inp.get('f'), inp.get('r'))
